@@ -21,6 +21,9 @@ Known finding (recorded, not repaired): block nesting has no limit and Parser::l
 YamlEmitter recurse once per level, so a few dozen kilobytes of block-nested input overflow the 8 MiB stack and abort the
 process.  An abort is attributed to that class iff   shape in entry.shapes  and  api in entry.apis  and
 depth >= entry.min_depth // MARGIN  and the child died of SIGABRT/SIGSEGV after the runtime reported a stack overflow.
+A second recorded class, C11-flow-limit-bypass (shapes `qflow`, `colons`), is handled in exactly the same way: flow-only inputs that
+nest without raising the scanner's flow_level above 1 ("[ ? ] , " repeated: the parser consumes the "]" as the end of the empty key;
+"[" + " :" repeated: one synthetic FlowMappingStart per bare colon), so the 255 limit never triggers and load / drop / emit overflow.
 MARGIN = 4: min_depth is the smallest aborting depth measured over both profiles (debug opt-level 1, release opt-level 2);
 frame sizes move with profile and compiler version (measured release/debug threshold ratios 0.93-1.14; an unoptimised build may
 need 2-3 times the stack per level),
@@ -421,11 +424,16 @@ def check_C11(tier, seed):
             apis = sorted(set(o["api"] for o in os_))
             per_api = ", ".join("%s>=%d" % (a, min(o["depth"] for o in os_ if o["api"] == a)) for a in apis)
             e = next(k for k in known if k["class"] == cls and sh in k["shapes"])
+            extra = ""
+            if sh == "qflow":
+                acc = [o["depth"] for o in obs if o["shape"] == "qflow" and o["kind"] == "OK" and o["depth"] > FLOW_LIMIT]
+                if acc:
+                    extra = "; flow nesting deeper than %d ACCEPTED in %d scenario(s), deepest %d" % (FLOW_LIMIT, len(acc), max(acc))
             res.known.append("class=%s shape=%s (%s): %d scenario(s) aborted with a stack overflow (%s) through the recursive apis; "
                              "smallest aborting depth per api in this run: %s; recorded min_depth=%d, attributed from depth %d on; "
-                             "witness: hx_c11 %s %d %s [%s]" % (
+                             "witness: hx_c11 %s %d %s [%s]%s" % (
                                  cls, sh, SHAPE_TEXT[sh], len(os_), first["signal"], per_api, e["min_depth"], e["min_depth"] // MARGIN,
-                                 sh, first["depth"], first["api"], first["profile"]))
+                                 sh, first["depth"], first["api"], first["profile"], extra))
         for o in obs:
             if o["depth"] in (255, 256, 30000) and o["shape"] in ("seq", "fseq") and o["profile"] == "debug" and len(res.samples) < 8:
                 res.samples.append(dict(scenario="%s %d %s" % (o["shape"], o["depth"], o["api"]), kind=o["kind"], signal=o["signal"],
@@ -435,7 +443,7 @@ def check_C11(tier, seed):
             res.evaluations += n
             res.coverage["traces_validated_against_impl"] = n
     rule = ("one child process per scenario: nesting depth (fixed ladder 1..10^5 incl. 255/256/257 + seeded log-uniform depths, "
-            "+ bisection of every crash threshold) x 7 shapes (the six of the property + block-around-flow) x 4 apis (+ 2 auxiliary "
+            "+ bisection of every crash threshold) x 9 shapes (the six of the property + block-around-flow + two flow-limit-bypass families) x 4 apis (+ 2 auxiliary "
             "apis isolating drop / emit from Parser::load) on an 8 MiB thread; non-trivial = distinct scenarios of depth >= 1000 or at "
             "the flow-limit boundary 255/256/257; the `map` shape is capped (input is quadratic in the depth)")
     return res.finish(proof, rule)
